@@ -79,3 +79,17 @@ func VerifActiveCheck(h *Handler, u *Upstream, i int, timeout time.Duration) err
 
 func VerifCountFailure(h *Handler, u *Upstream, i int) { h.countFailure(u.peers[i]) }
 func VerifHealthy(u *Upstream) bool                   { return u.healthy() }
+
+// VerifProvisionUpstream runs the real Upstream.provision for u inside a handler
+// with the given passive health check settings.
+func VerifProvisionUpstream(u *Upstream, passive *PassiveHealthChecks) (*Handler, error) {
+	h := &Handler{Upstreams: UpstreamPool{u}, logger: zap.NewNop(), ctx: caddy.Context{Context: context.Background()}}
+	if passive != nil {
+		h.HealthChecks = &HealthChecks{Passive: passive}
+	}
+	err := u.provision(h.ctx, h)
+	return h, err
+}
+
+// VerifFull reports u.full().
+func VerifFull(u *Upstream) bool { return u.full() }
